@@ -317,6 +317,22 @@ def _file_cases(how, max_bytes, parts=1):
     return out
 
 
+UNI = ["\u0661", "\u0969", "\uff11", "\u00e9", "\u03c0", "\u0301", "\u200b", "\u200c", "\u200d", "\u2028", "\u2029", "\ufeff", "\u00a0",
+       "\u3000", "\u2003", "\ud800", "\udfff", "\U0001F600", "\U0001D7D8", "\u0000", "\u0008", "\u007f", "\u0085", "\u180e", "\u2160",
+       "\u00b2", "\u00bd", "\u212a", "\u0131", "\u00df", "\ufb01", "\u1e9e", "\u0307"]
+UNI_CTX = ["%s", "1%s", "%s1", "a%s", "%sa", ".%s", "1.%s", "1e%s", "0x%s", "'%s'", "\"\\%s\"", "/%s/", "/[%s-z]/", "/a/%s", "a.%s", "var %s = 1", "a = %s",
+           "%s:1", "({%s: 1})", "// %s\n1", "/* %s */1", "1 %s 2", "'a'.padEnd(3, '%s')", "'%sa'.toUpperCase()", "parseInt('%s')", "Number('1%s')",
+           "'a%sb'.split('%s')", "'%s'.charCodeAt(0)", "JSON.parse('\"%s\"')", "new RegExp('%s')", "x%s = 2", "%s%s", "`%s`"]
+
+
+def _unicode_sources():
+    out = []
+    for ctx in UNI_CTX:
+        srcs = [ctx.replace("%s", u) for u in UNI]
+        out.append(("non-ASCII characters in context %r" % ctx, {"sources": srcs, "pos_every": 1}))
+    return out
+
+
 def _long_sources():
     out = []
     for n in (15, 16, 17, 21, 22, 308, 309, 310, 400, 401, 1000, 4299, 4300, 4301, 5000, 20000):
@@ -351,6 +367,10 @@ def spaces(tier, seed, all_strata=False):
             "every prefix (every character offset) of every tests/**/*.js program below 4 kB", "all offsets"),
         _sp("c04_mutations", "run_sources", lambda: [c for how in ("delete", "dup", "swap", "bracket") for c in _file_cases(how, 4000)],
             "every single-token deletion, duplication, adjacent swap and bracket substitution of every corpus program below 4 kB", "1 edit"),
+        _sp("c04_unicode", "run_sources", _unicode_sources,
+            "33 non-ASCII / control characters (digits of other scripts, combining marks, zero-width and line separators, BOM, NBSP, lone "
+            "surrogates, astral characters, case-mapping oddities) in 33 syntactic contexts (number parts, identifiers, strings, "
+            "regex bodies/classes/flags, comments, operators, built-in arguments)", "33 x 33", batch=4),
         _sp("c04_long", "run_sources", _long_sources,
             "size sweep: digit strings, radix literals, numeric strings, identifiers, string/regex/comment bodies, \\u{...} escapes "
             "and method arguments of length 15..20000, and operator/member/call/bracket/statement chains of length 10..3000",
